@@ -802,7 +802,8 @@ def unify(s: Type | Const, t: Type | Const, subst: "Subst | None") -> "Subst | N
             if len(s.inputs) != len(t.inputs):
                 return None
             for a, b in zip(s.inputs, t.inputs, strict=True):
-                if a.ty.linear and b.ty.linear and a.flags != b.flags:
+                # Ownership flags matter for every non-copyable input (affine ones too)
+                if not a.ty.copyable and not b.ty.copyable and a.flags != b.flags:
                     return None
             return _unify_args(s, t, subst)
         case TupleType() as s, TupleType() as t:
@@ -821,11 +822,26 @@ def _unify_var(
     """Helper function for unification of type or const variables."""
     if var in subst:
         return unify(subst[var], t, subst)
-    if isinstance(t, ExistentialTypeVar) and t in subst:
+    if isinstance(t, ExistentialTypeVar | ExistentialConstVar) and t in subst:
         return unify(var, subst[t], subst)
-    if var in t.unsolved_vars:
+    if _occurs(var, t, subst):
         return None
     return {var: t, **subst}
+
+
+def _occurs(var: ExistentialVar, t: Type | Const, subst: "Subst") -> bool:
+    """Occurs check that also looks through variables already solved in `subst`."""
+    todo = list(t.unsolved_vars)
+    seen: set[ExistentialVar] = set()
+    while todo:
+        v = todo.pop()
+        if v == var:
+            return True
+        if v not in seen:
+            seen.add(v)
+            if v in subst:
+                todo.extend(subst[v].unsolved_vars)
+    return False
 
 
 def _unify_args(
